@@ -4,6 +4,7 @@ Line-protocol driver for the `resolve` cluster (C13).
   cls <C> <base,base|-> <attr=Spec,…|->    new <o> <C>
   get <o> .<name>   set <o> .<name> <val>   del <o> .<name>
   add <o> .<name> <Spec>   rem <o> .<name>   trt <o> .<name> <mode>
+  hook <o> .<prefix> <Spec>     (a trait_added listener: add_trait(new, Spec) for names starting with prefix)
   Spec = Kind[:val]@tag   val = n | u | i<int> | s<chars>
 Run:  lake env lean --run TraitsVerif/Driver/Resolve.lean
 -/
@@ -156,6 +157,7 @@ def doOp (st : St) (s : String) : St × String :=
   | ["add", o, n, spec] => objOp st o n (fun oi n => (parseSpec spec).map (.addTrait oi n))
   | ["rem", o, n] => objOp st o n (fun oi n => some (.removeTrait oi n))
   | ["trt", o, n, m] => objOp st o n (fun oi n => (int? m).map (.getTrait oi n))
+  | ["hook", o, p, spec] => objOp st o p (fun oi p => (parseSpec spec).map (.hook oi p))
   | _ => (st, "bad-op")
 
 def runOps : St → List String → List String
